@@ -681,6 +681,64 @@ example :
     let r := session toyCrypto true [8, 8] Rx.init [.data (w.take 9), .fail [] "timeout", .data (w.drop 9)]
     r.1 = [104, 105] ∧ r.2.1 = [.net "timeout"] := by decide +kernel
 
+/-! ## the repaired `Read` reports an error only after all decoded payload (model `readHeld`) -/
+
+/-- **no decoded byte is withheld at an error**: whenever the repaired `Read` reports an error,
+    `receiveDecodedBuffer` is empty and no error is held back any more — a caller that stops at
+    the first error (`io.ReadAll`, `io.Copy`), with any buffer size, has received every byte that
+    was decoded before the error.  (False for `read`, the `Read` before the repair: it reports the
+    error with `decoded.drop n` still pending.) -/
+theorem read_error_after_all_decoded (c : Crypto) (srv : Bool) (n : Nat) (st st' : Rd)
+    (evs rest : List NetEv) (bytes : Bytes) (e : RxErr)
+    (h : readHeld c srv n st evs = .ret st' bytes (some e) rest) :
+    st'.rx.decoded = [] ∧ st'.held = none := by
+  unfold readHeld at h
+  split at h
+  · simp only at h
+    split at h
+    · cases h
+    · rename_i hlen
+      injection h with h1 _ _ _
+      subst h1
+      exact ⟨List.eq_nil_of_length_eq_zero (by simpa using hlen), rfl⟩
+  · rename_i hd
+    have hd0 : st.rx.decoded = [] := List.eq_nil_of_length_eq_zero (by simpa using hd)
+    split at h
+    · cases h; exact ⟨hd0, rfl⟩
+    · split at h
+      · cases h
+      · cases h
+      · split at h
+        · cases h
+        · rename_i hlen
+          cases h
+          exact ⟨List.eq_nil_of_length_eq_zero (by simpa using hlen), rfl⟩
+
+/-- **a held-back error is reported exactly once and not latched**: with nothing decoded pending
+    the held error is returned, no network event is consumed, the receive side is untouched, and
+    the next `Read` goes to the network again (`held = none`). -/
+theorem held_error_reported_once (c : Crypto) (srv : Bool) (n : Nat) (rx : Rx) (e : RxErr)
+    (evs : List NetEv) (hd : rx.decoded = []) :
+    readHeld c srv n ⟨rx, some e⟩ evs = .ret ⟨rx, none⟩ [] (some e) evs := by
+  simp [readHeld, hd]
+
+/-- without an error nothing changes: the repaired `Read` returns what `read` returns -/
+theorem readHeld_eq_read_of_no_error (c : Crypto) (srv : Bool) (n : Nat) (rx rx' : Rx)
+    (evs rest : List NetEv) (bytes : Bytes) (hd : rx.decoded = [])
+    (h : Obfs4.read c srv n rx evs = .ret rx' bytes none rest) :
+    readHeld c srv n ⟨rx, none⟩ evs = .ret ⟨rx', none⟩ bytes none rest := by
+  simp [readHeld, hd, h]
+
+/-- non-vacuity: 2 payload bytes arrive together with EOF, 1-byte `Read`s: byte, then byte + EOF -/
+example :
+    let w := wire toyCrypto [pktA]
+    (match readHeld toyCrypto true 1 ⟨Rx.init, none⟩ [.fail w "eof"] with
+      | .ret st b e _ => (b, e, st.held, st.rx.decoded) | .blocked _ => ([], none, none, []))
+      = ([104], none, some (.net "eof"), [105]) ∧
+    (match readHeld toyCrypto true 1 ⟨{ Rx.init with dec := ⟨1, none⟩, decoded := [105] }, some (.net "eof")⟩ [] with
+      | .ret st b e _ => (b, e, st.held, st.rx.decoded) | .blocked _ => ([], none, none, []))
+      = ([105], some (.net "eof"), none, []) := by decide +kernel
+
 theorem toyCrypto_ok : CryptoOK toyCrypto := Obfs4.toyCrypto_ok
 
 end C01
